@@ -149,6 +149,20 @@ pub fn run(o: &Opts) -> Report {
             cases.push((mk(d), bv(&["prog", "--aa", "1", "-cc"]), Box::new(|m| { want_source(m, "ex", Some(ValueSource::DefaultValue))?; want_source(m, "bb", Some(ValueSource::EnvVariable)) })));
         }
         run_expect(&mut rep, o, "defaulted-exclusive-arg-rejects-others", cases);
+        // a global given through its environment variable beats the default of a same-named arg a subcommand defines itself
+        let mkg = || { let mut c = CmdS { name: "prog".into(), ..Default::default() };
+            c.args.push(ArgS { id: "cfg".into(), long: Some("cfg".into()), action: Some("set"), global: true, env: Some(Some("from-env".into())), ..Default::default() });
+            let mut d = CmdS { name: "deploy".into(), ..Default::default() };
+            d.args.push(ArgS { id: "cfg".into(), long: Some("cfg".into()), action: Some("set"), global: true, default_vals: vec!["sub-default".into()], ..Default::default() });
+            d.args.push(ArgS { id: "dry".into(), long: Some("dry".into()), action: Some("setTrue"), ..Default::default() });
+            d.subs.push(CmdS { name: "now".into(), ..Default::default() });
+            c.subs.push(d); c };
+        let casesg: Vec<(CmdS, Vec<Vec<u8>>, Expect)> = vec![
+            (mkg(), bv(&["prog", "deploy"]), Box::new(|m| { want_occs(m, &[], "cfg", &[&["from-env"]])?; want_occs(m, &["deploy"], "cfg", &[&["from-env"]])?; want_source(m, "cfg", Some(ValueSource::EnvVariable)) })),
+            (mkg(), bv(&["prog", "deploy", "--dry", "now"]), Box::new(|m| { want_occs(m, &["deploy", "now"], "cfg", &[&["from-env"]])?; want_occs(m, &["deploy"], "cfg", &[&["from-env"]]) })),
+            (mkg(), bv(&["prog", "deploy", "--cfg", "cli"]), Box::new(|m| { want_occs(m, &[], "cfg", &[&["cli"]])?; want_occs(m, &["deploy"], "cfg", &[&["cli"]]) })),
+        ];
+        run_expect(&mut rep, o, "environment-value-of-a-global-lost-to-a-default", casesg);
     }
     crate::pcorr::run_generic(&mut rep, o, 0xC06);
     rep
